@@ -15,7 +15,8 @@ from mc import alphabet as A
 from mc import core, pipeline, program
 
 PROP = "C11"
-SYMS = ["a", "B", "1", "_", "-", " ", ".", '"', "'", "\\", "é", "я", "日", "\u2028", "e\u0301", "\u212b"]   # the last two are not NFC-normal
+SYMS = ["a", "B", "1", "_", "-", " ", ".", '"', "'", "\\", "é", "я", "日", "\u2028", "e\u0301", "\u212b",   # the last two are not NFC-normal
+        "\U0001F600", "\U0001D400"]   # outside the BMP (JSON text spells them as surrogate pairs); the second transliterates to a letter
 CONFIGS = [("pydantic", {}), ("sqlmodel", {}), ("attrs", {"meta": True}), ("dataclasses", {"meta": True}), ("base", {})]
 POOL = ["a", "b", "ab", "a-b", "a_b", "a b", "aB", "Ab", "a.b", "class", "class_", "list", "List", "id", "pk", "1a", "a1", "one_a",
         "é", "e", "я", "ia", "日", "ri", "a\"b", "a'b", "a\\b", "type", "Type", "field", "Field", "self", "None", "none", "schema",
